@@ -95,7 +95,8 @@ class C16(Prop):
         "save_escapes_quote_backslash_cr", "tmpName_ne_file", "save_failure_leaves_no_tmp", "save_success_leaves_no_tmp",
         "restore_nesting_bounded", "nesting_test_only_refuses", "saveObject_leaves_no_tmp", "saveObject_error_touches_nothing",
         "saveObject_error_iff_too_deep", "tmpName_eq", "tmpName_never_a_save_file", "mapping_insert_spec",
-        "restore_mapping_all_found", "hash_sites_as_modelled")]
+        "restore_mapping_all_found", "hash_sites_as_modelled", "error_messages_as_in_source",
+        "save_structure_bytes_as_in_source")]
     witness_theorems = ["NV.C16.Witness." + t for t in (
         "float_keys_collapse", "roundtripFloatKeys_Full_false", "cr_round_trips", "stray_byte_in_array_ok",
         "inf_is_written_as_number", "same_name_saved", "same_name_variables", "old_mask_loses_the_key")]
@@ -252,7 +253,36 @@ class C16(Prop):
             "lookup": "i = svalue_to_int (lv) & m->table_size; for (elt = a[i]; elt; elt = elt->next) { if (msameval (elt->values, lv)) return elt; }" in mapw,
             "hash shift": bool(msh),
         }
+        # error messages per ROB_* code (restore_variable has no branch for ROB_CLASS_ERROR: mirrored), and the structure
+        # bytes save_svalue writes around / between the elements of the three container kinds
+        def messages(body, site):
+            ms = re.findall(r'(?:else\s+)?if\s*\(rc & (ROB_\w+)\)\s*error\s*\("((?:[^"\\]|\\.)*)"', body)
+            if not ms:
+                raise X.TieBroken("site:" + site, "the ROB_* -> error() chain of %s not recognised" % site)
+            return [(a, b[:-2] if b.endswith("\\n") else b) for a, b in ms]
+        rv_msgs = messages(src[src.find("void restore_variable (svalue_t * var"):src.find("void tell_npc")], "restore_variable")
+        fb_msgs = messages(section("void restore_object_from_buff", "static int save_object_recurse", "restore_object_from_buff"),
+                           "restore_object_from_buff")
+        sv = section("void save_svalue", "static int restore_internal_size", "save_svalue")
+
+        def lits(label, nxt):
+            i = sv.find(label)
+            j = sv.find(nxt, i + 1) if i >= 0 else -1
+            if i < 0 or j < 0:
+                raise X.TieBroken("site:save_svalue/" + label, "case not found")
+            out = []
+            for lit in re.findall(r"\*\(\*buf\)(?:\+\+)?\s*=\s*'((?:\\.|[^'\\]))'", sv[i:j]):
+                out.append({"\\0": 0, "\\\\": 92, "\\'": 39}.get(lit, ord(lit[-1])))
+            return out
+        lstr = lambda x: '"' + x.replace("\\", "\\\\").replace('"', '\\"') + '"'
         return "\n".join([
+            "/-- restore_variable(): `if (rc & ROB_x) error (msg)` chain, in order -/\ndef restoreVariableMessages : List (String × String) := [%s]"
+            % ", ".join("(%s, %s)" % (lstr(a), lstr(b)) for a, b in rv_msgs),
+            "/-- restore_object_from_buff(): the same chain with the variable name (`%%s`) -/\n"
+            "def restoreObjectMessages : List (String × String) := [%s]" % ", ".join("(%s, %s)" % (lstr(a), lstr(b)) for a, b in fb_msgs),
+            "/-- save_svalue(): the character literals written in the T_ARRAY / T_CLASS / T_MAPPING cases, in source order -/\n"
+            "def saveArrayLits : List Nat := %s\ndef saveClassLits : List Nat := %s\ndef saveMappingLits : List Nat := %s"
+            % (lits("case T_ARRAY", "case T_CLASS"), lits("case T_CLASS", "case T_NUMBER"), lits("case T_MAPPING", "\n}\n")),
             "/-- the hash-table statements of restore_mapping (object.c), growMap and node_find_in_mapping (mapping.c) read\n"
             "    as NV/C16/Hash.lean models them: %s -/\ndef hashSitesAsModelled : Bool := %s\n"
             "/-- `MAP_POINTER_HASH(x) ((intptr_t)x >> N)` -/\ndef hashShift : Nat := %s" %
@@ -654,6 +684,19 @@ class C16(Prop):
            sum([self.grow_lines(E.Rng(100 + n), n, k) for n in (6, 7, 8, 12, 13, 14, 15, 25, 28, 31, 63) for k in ("int", "str")], []) +
            ["set i1 i2 i3 i4 i5", "wf " + ("#/c16/obj.c\nva " + G[0] + "\nvb " + G[5] + "\nvc " + G[7] + "\n").encode().hex(), "ro 0", "ro 1",
             "so 1", "ro 0"])
+        # nesting limit of the restore (= MAX_SAVE_SVALUE_DEPTH of the save): 25 levels restore, 26 are refused as an
+        # illegal format, and text nested without end is refused instead of running the C recursion out of stack
+        def deep(n, o="({", c="})"):
+            return (o * n + "1," + (c + ",") * (n - 1) + c).encode()
+        mk("restore-nesting-limit",
+           ["rx %s %s" % (vtxt(self.nest(25)), save_text(self.nest(25)).hex()), "rv " + deep(25).hex(), "rv " + deep(26).hex(),
+            "rv " + deep(27).hex(), "rv " + deep(25, "(/", "/)").hex(), "rv " + deep(26, "(/", "/)").hex(),
+            "rx %s %s" % (vtxt(self.nest(25, "m")), save_text(self.nest(25, "m")).hex()),
+            "rv " + save_text(self.nest(26, "m")).hex(), "rv " + save_text(self.nest(26, "mix")).hex(),
+            "rv " + save_text(self.nest(26, "mk")).hex(), "rv " + save_text(self.nest(25, "mk")).hex(),
+            "rv " + deep(300).hex(), "rv " + (b"({" * 150000).hex(), "rv " + (b"([" * 150000).hex(),
+            "rv " + (b"({([1:(/" * 50000).hex(), "rv " + (b'(["a":' * 100000).hex(), "rt a[i1,a[i2]]",
+            "set i1 i2 i3 i4 i5", "wf " + (b"#/c16/obj.c\nvi 7\nva " + b"({" * 150000 + b"\nvb 5\n").hex(), "ro 1", "ro 0"])
         mk("restore-after-error", ["rv " + ("({({1,2,3,}),({" + "1," * 20000 + "}),})").encode().hex(),
                                    "rx a[i1,i2] " + b"({1,2,})".hex(), "rx c(i1,i2) " + b"(/1,2,/)".hex(),
                                    "rx m{i1:i2} " + b"([1:2,])".hex(), "rt a[i1,i2]"])
